@@ -407,6 +407,20 @@ func runCases(ctx *Ctx, cases []Case, par int) {
 	}
 	aliasEvents = nil
 	heldMu.Unlock()
+	// ops that ran in worker processes report what they allocated themselves (zz_worker.go)
+	workerMu.Lock()
+	for _, ev := range workerAllocEvents {
+		for i := range cases {
+			if cases[i].NoPanic && cases[i].Op == ev.op && strings.Join(cases[i].MArgs, " ") == ev.args {
+				c := cases[i]
+				ctx.AddMismatch(Mismatch{Kind: "spec", Case: c, Spec: "*", Size: caseSize(c),
+					Impl: fmt.Sprintf("allocated %d bytes for %d bytes of input (allowance %d; measured in the worker process)", ev.bytes, caseInputBytes(c), allocAllowance(caseInputBytes(c)))})
+				break
+			}
+		}
+	}
+	workerAllocEvents = nil
+	workerMu.Unlock()
 	allocAudit(ctx, cases, ops, impl)
 	// 2. driver lines
 	var lines []string
